@@ -168,7 +168,11 @@ class PipelineUnit(WeaverUnit):
             w = Fraction(rx[k + 1]) - Fraction(rx[k])
             mean = integ / w
             scale = 1 + abs(Fraction(ry[k])) + max(abs(v) for v in by)
-            if abs(mean - Fraction(ry[k])) > Fraction(1, 10 ** 8) * scale + Fraction(slack):
+            # (the conditioning term is local, like the matching itself: what was moved IN THIS interval)
+            slack_k = slack
+            if before is not None and len(before) == len(ys):
+                slack_k = 16 * cond * float(np.max(np.abs(np.array(before[k * n:(k + 1) * n + 1], dtype=float) - np.array(ys[k * n:(k + 1) * n + 1], dtype=float))))
+            if abs(mean - Fraction(ry[k])) > Fraction(1, 10 ** 8) * scale + Fraction(slack_k):
                 F.append(Failure(aspect="block-mean", what="interval %d: %s mean of the matched series is %.12g, original average is %.12g (strategy %s n=%d; x=%s y=%s)" % (
                     k, rt, float(mean), ry[k], steps[-2]["op"].get("strategy"), n, c["x"][:12], c["y"][:12]), signature={"aspect": "block-mean", "rt": rt}))
                 break
